@@ -173,7 +173,7 @@ def _gen(tier, rng):
         for n in range(1, maxn + 1):
             heavy = (F is Rat and n == 4) or n >= 7
             for fam in range(7):
-                for _ in range((6 if heavy else 25) * rep):
+                for _ in range((6 if heavy else 60) * rep):
                     yield case(1, F, names_of(rng), conv(F, square_family(rng, n, fam)))
             # pivot of row k exactly zero / just below / just above
             for k in range(n):
@@ -201,7 +201,7 @@ def _gen(tier, rng):
         for n in range(1, maxn + 1):
             heavy = n >= 7
             for fam in range(7):
-                for _ in range((4 if heavy else 20) * rep):
+                for _ in range((4 if heavy else 50) * rep):
                     yield case(2, F, names_of(rng), conv(F, square_family(rng, n, fam)))
             for k in range(n):
                 for _ in range((2 if heavy else 6) * rep):
@@ -245,15 +245,16 @@ def _gen(tier, rng):
     shapes = [(r, c) for r in range(1, 6) for c in range(1, 6)] + [(6, 1), (6, 3), (6, 6), (7, 2), (6, 5)] + \
              ([] if quick else [(8, 8), (8, 1), (7, 7), (8, 5)])
     for (r, c) in shapes:
-        for _ in range((3 if r * c <= 25 else 1) * rep):
+        for _ in range((12 if r * c <= 25 else 3) * rep):
             for m in qr_inputs(r, c, Fp):
                 yield case(3, Fp, names_of(rng), m)
-    # Rat: the polynomial sqrt cubes the size of the numbers twice per reflection, so only shapes
-    # with at most 2 reflections (min(rows-1, cols) <= 2); every N>M shape up to 5x5 (absent)
+    # Rat: the polynomial sqrt cubes the size of the numbers twice per reflection (a 3x2 input takes
+    # the extracted model more than a minute), so only shapes with at most ONE reflection
+    # (min(rows-1, cols) <= 1: Nx1, 2xN); every N>M shape up to 5x5 (absent)
     for (r, c) in [(r, c) for r in range(1, 6) for c in range(1, 6)]:
         it = min(r - 1, c)
-        if c > r or it <= 1 or (it == 2 and r <= 3):
-            for _ in range((2 if it <= 1 else 1) * rep):
+        if c > r or it <= 1:
+            for _ in range(4 * rep):
                 for m in qr_inputs(r, c, Rat):
                     yield case(3, Rat, names_of(rng), m)
 
